@@ -20,7 +20,7 @@ META = {
                   "its block through the path the code takes, absent names are not found, and every read is exact outside NAMED deviations "
                   "(negative control: TLC must find the F-C01-a counterexample on the pre-fix model). TLC then enumerates archive "
                   "configurations (version x shift x method x enc x crc x attrs x listfile x tablecomp, plus V3/V4 x tablecomp x 1..40 small "
-                  "files); the driver builds and reads real archives in child processes with per-call watchdogs (31 files, 4 spellings each, "
+                  "files); the driver builds and reads real archives in child processes with per-call watchdogs (31 files + 8 short-zero-tail files, 4 spellings each, "
                   "3 absent names, listing, which tables open() loaded, HET/BET/classic probe observations, re-open behind a non-zero archive "
                   "offset); TLC validates every recorded event against the model.",
     "level_note": "Codec bytes and digests are observed (token equality), not modelled. HET/BET bit-packing is not modelled: the path is "
@@ -28,9 +28,9 @@ META = {
                   "through BET file info. Key derivation is checked on the model and by the round trip itself, not per trace event. "
                   "ADPCM (lossy) methods: once a lossy stage was applied only result class and length are demanded. quick = 144 "
                   "configurations (slice through version x shift in {0,3,8} x one more dimension, + 24 seed-rotated draws of the 31 104) "
-                  "+ 160 table-length, 84 field-width and 16 sector-count cases; thorough = the full product of version x shift x method x enc x crc x attrs (7 776) with the "
+                  "+ 160 table-length, 84 field-width, 16 sector-count, 6 huge-member and 32 colliding-name-set cases; thorough = the full product of version x shift x method x enc x crc x attrs (7 776) with the "
                   "(listfile, tablecomp) pair rotating by coordinate sum + seed (four consecutive seeds enumerate the whole "
-                  "31 104-configuration product) + quick slice + 100 draws + the same 260 table / width / sector-count cases; the non-zero-offset re-open is done "
+                  "31 104-configuration product) + quick slice + 100 draws + the same 298 table / width / sector-count / huge / name-set cases; the non-zero-offset re-open is done "
                   "for every archive in quick and every fourth in thorough.",
     "technique": "TLA+ writer/reader model checked by TLC; TLC-enumerated configurations replayed on the real builder/reader; trace validation by TLC",
     "design_ref": "DESIGN.md section 5, C01",
